@@ -207,5 +207,33 @@ PROPS["C08"] = {
     "assumptions": COMMON_ASSUME + ["a defect whose symptoms coincide with the F2 deviation model on every generated history would be filed under F2"],
 }
 
+PROPS["C09"] = {
+    "legs": [plain("conc", "pcache", "TestC09Conc", race=True,
+                   shards={"quick": 4, "thorough": 16},
+                   env={"quick": {"VK_C09_WORKLOADS": "400"}, "thorough": {"VK_C09_WORKLOADS": "6000"}})],
+    "rule": "workloads are drawn as data by a rapid generator (Example seeds derived from VERIF_SEED and the shard): 2-4 "
+            "goroutines x 4-12 calls of Has/Get/Put/Remove/Len/Size/Clear over keys 0..3, unique values of size 1-3, "
+            "limit 3-5 (at most 5 entries, so known finding F2 cannot be exposed and the sequential specification is the "
+            "pure LRU of C08), GOMAXPROCS in {1,2,4,16}; the harness's own size function and eviction callback run inside "
+            "the cache's critical section and yield / spin for a drawn amount, which stretches exactly the windows a "
+            "narrowed or dropped lock would open. Each workload is executed 4 (quick) / 6 (thorough) times, alternately "
+            "'stamped' (every call bracketed by one atomic counter; the recorded history is checked with "
+            "porcupine.CheckOperationsTimeout against the LRU specification, eviction lists included in the outputs, "
+            "Len/Size observations are operations) and 'raw' (goroutines share nothing but the cache, so the race "
+            "detector sees every unsynchronised pair). The binary is built with -race (GORACE=halt_on_error=1): any report "
+            "is a violation. At quiescence of every execution: every successfully stored value was reported to the "
+            "callback exactly once (during the run or by the final Clear), nothing else was reported, Len/Size equal what "
+            "the final Clear released and Size<=limit. A state-based deadlock detector (all unfinished workers parked in "
+            "Mutex.Lock inside cache methods) reports a deadlock. evaluations = executions; NON-TRIVIAL (counted per "
+            "distinct workload) iff in some stamped execution two calls of different goroutines overlapped in real time on "
+            "the same key or a Put that evicted overlapped another call. A checker timeout counts as inconclusive, never "
+            "as a violation.",
+    "assumptions": COMMON_ASSUME + [
+        "the Go scheduler is not owned by the harness: interleavings are sampled, not enumerated; a defect that needs one specific preemption inside a few instructions can be missed",
+        "the Go race detector reports only races that occur in an execution",
+        "porcupine v1.3.0 decides linearizability correctly"],
+    "technique": "randomised concurrent workloads; Go race detector + porcupine linearizability check against the C08 reference model + quiescence accounting",
+}
+
 # Properties deliberately not claimed (reason shown in MANIFEST.not_applicable).
 NOT_APPLICABLE = {}
